@@ -687,6 +687,11 @@ class PrecipitateModel (PrecipitateBase):
                 self.growth[p] = np.zeros(self.PBM[p].bins+1)
                 continue
             self.PBM[p].UpdatePBMEuler(t, x[p])
+            #Remove precipitates below the thresholds on the size classes that x was recorded on
+            #If the size classes are re-meshed below, the coarser classes at the thresholds can hold particles from stable classes,
+            #    which were counted in the mass balance of this step and have to stay in the distribution
+            self.PBM[p].PSD[:self.RdrivingForceIndex[p]+1] = 0
+            self.PBM[p].PSD[self.PBM[p].PSDsize < self.constraints.minRadius] = 0
             change, addedIndices = self.PBM[p].adjustSizeClassesEuler(all(self.growth[p] < 0))
             if change:
                 if self.precipitateParameters[p].calculateAspectRatio:
@@ -709,8 +714,6 @@ class PrecipitateModel (PrecipitateBase):
                     self.PSDXalpha[p] = np.zeros((self.PBM[p].bins + 1, self.numberOfElements))
                     self.PSDXbeta[p] = np.zeros((self.PBM[p].bins + 1, self.numberOfElements))
                 self.growth, _ = self._growthRate(self.pData.copySlice(self.pData.n))
-            self.PBM[p].PSD[:self.RdrivingForceIndex[p]+1] = 0
-            self.PBM[p].PSD[self.PBM[p].PSDsize < self.constraints.minRadius] = 0
             self.dissolutionIndex[p] = self.PBM[p].getDissolutionIndex(self.constraints.maxDissolution, self.RdrivingForceIndex[p])
 
     def plot(self, axes, variable, bounds = None, timeUnits = 's', radius='spherical', *args, **kwargs):
